@@ -150,6 +150,9 @@ class RefBroker:
             self.silent = True
         if name == 'Heartbeat':
             return
+        if self.state == 'closing' and name != 'Connection.CloseOk':
+            # a broker that has sent Connection.Close discards everything but the CloseOk (AMQP 0-9-1, connection.close)
+            return
         if ch == 0:
             return self.on_connection_frame(name, fr)
         c = self.channels.get(ch)
